@@ -556,6 +556,36 @@ def _stepcap_tasks(tier):
     return out
 
 
+def _twoobj_tasks(tier):
+    """round 5: two PCACD objects in one process fed DIFFERENT periodic streams past their window fill (the derived Pair:
+    family only reaches depth 5 on the window-3 dfs tasks, where neither instance finishes its 2w-sample fill).  Scripted
+    pair histories through mc.pairs.Pair: instance a is fed a stream of period w (its test window always equals its
+    reference window: every score must be 0), instance b another point cycle; schedules alt (strict alternation) and blocks
+    (a runs ahead, b catches up, a goes on); both orders; each instance judged by its own model exactly as alone."""
+    out = []
+    cycles = {3: ([0, 1, 2], [3, 1, 2]), 4: ([0, 1, 2, 3], [3, 3, 1, 0])}
+    j = 0
+    for w, metric, scaling, ev in ((3, "intersection", False, 0.99), (3, "intersection", True, 0.6), (4, "intersection", False, 0.99),
+                                   (3, "kl", False, 0.99)):
+        base = {"dim": 2, "alphabet": [0, 1, 2, 3], "fam": "twoobj",
+                "params": {"window_size": w, "ev_threshold": ev, "delta": 0.0, "divergence_metric": metric,
+                           "sample_period": 0.34 if w == 3 else 0.25, "online_scaling": scaling}}
+        ca, cb = cycles[w]
+        reps = 7 if tier == "quick" else 11
+        for first, second in ((ca, cb), (cb, ca)):
+            sa, sb = first * reps, second * reps
+            for sched in ("alt",):  # equal-length scripts: strict alternation consumes both exactly (one execution per task)
+                depth = len(sa) + len(sb)
+                cfg = {"id": "twoobj-%d-%s" % (j, sched), "a": dict(base, id=7100 + j, len=len(sa)),
+                       "b": dict(base, id="%d~b" % (7100 + j), len=len(sb)), "sched": sched, "script": [sa, sb],
+                       "h": 2 * w + 2, "hb": 2 * w + 3}
+                out.append({"system": "Pair:PCACD", "cfg": cfg, "prefix": [], "depth": depth, "pair": True, "validate_every": 2,
+                            "label": "Pair:PCACD|twoobj|w%d %s %s|%s|%d" % (w, metric[:5], "scal" if scaling else "raw", sched, j),
+                            "cost": 40 * depth})
+            j += 1
+    return out
+
+
 def _sym_tasks(tier):
     """Mirror-symmetric menu (bin-edge ties, sign decided by rounding)."""
     out = []
@@ -998,6 +1028,7 @@ def tasks(tier, seed):
                 out += _dfs_tasks(c, c["alphabet"], split=2)
     out += _lambda1_tasks(tier)
     out += _stepcap_tasks(tier)
+    out += _twoobj_tasks(tier)
     out += _sym_tasks(tier)
     out += _family_tasks(tier, allc)
     out += _long_family_tasks(tier)
@@ -1116,6 +1147,10 @@ def describe(tier):
                 "" if q else "lat3 scaled (ev 0.6), ",
                 "" if q else " and with one retained component (ev 0.6)",
             ),
+            "family_twoobj": "round 5: two PCACD objects in one process (system Pair:PCACD through mc/pairs.py with scripted histories): "
+                             "instance a is fed a stream of period w (every score must be 0), instance b another point cycle, strict "
+                             "alternation, both orders, 7 (thorough 11) periods each, windows 3 and 4, intersection raw / scaled and kl; each "
+                             "instance judged by its own model exactly as alone (one execution per task, 8 tasks)",
             "family_stepcap": "round 5: windows 104 / 120 / 110 (thorough also 101 / 128 / 200) with sample_period 1.0 / 0.9 / 0.8 — "
                               "sample_period * window_size just above (cap of 100 binds) and just below 100 — scripted histories of "
                               "2w + 234 samples (two or three scheduled scores each), no deviation in quick, every single replacement "
